@@ -191,7 +191,17 @@ pub fn gen(rng: &mut Rng, thorough: bool, out: &mut Sink) {
                 continue;
             }
             keys.push((k.as_bytes().to_vec(), normalized.len() as u32));
-            normalized.extend_from_slice(v.as_bytes());
+            if rng.chance(1, 4) {
+                // a long replacement (the longest of the shipped map has 33 bytes): 20..80 bytes, mixed widths
+                let want = rng.range(20, 80);
+                let mut long = String::new();
+                while long.len() < want {
+                    long.push(*rng.pick(&['x', 'y', 'é', '語']));
+                }
+                normalized.extend_from_slice(long.as_bytes());
+            } else {
+                normalized.extend_from_slice(v.as_bytes());
+            }
             normalized.push(0);
         }
         let units = build_trie(&keys);
@@ -261,6 +271,12 @@ pub fn gen(rng: &mut Rng, thorough: bool, out: &mut Sink) {
                     _ => c.to_string(),
                 };
                 lines.push(norms_line(myslot, &tk.def, 0, true, &text));
+            }
+            // the entries with the longest replacements (Arabic ligatures up to 33 bytes, squared words) explicitly
+            for cp in (0xfdf0..=0xfdfcu32).chain(0x3300..=0x3357u32) {
+                if let Some(c) = char::from_u32(cp) {
+                    lines.push(norms_line(myslot, &tk.def, 0, true, &c.to_string()));
+                }
             }
             // the last trie unit (U+2FA1D region) explicitly
             for cp in 0x2fa00..=0x2fa2fu32 {
